@@ -12,6 +12,9 @@
        with the same tokens, the end moved by the difference.  PARTIAL: "the derivation of es1 is the same on both texts" is a
        HYPOTHESIS (it is exactly what fails in F-09 and F-09b, C09_*_refuted below), and only the top-level boundaries of one
        And are covered (a boundary inside a nested element is reached by applying the theorem to that element);
+       C09_insert_interior_literal_prefix_partial discharges the hypothesis for prefixes built from Literals / Words / And /
+       Group / Suppress whose last token is a Literal (C09_literal_prefix_determined: such a derivation inspects nothing at or
+       behind its end), leaving only "the prefix derivation of the ACCEPTED text ends at the insertion point";
      * comments (C09_comment_preparse_partial, C09_comment_lands_partial), on the element semantics `pre_parse` itself run by
        ANY handler of the `_parse` calls (the reference reading has no ignore expressions): a text that the ignore expression
        matches completely, inserted where an element carrying that ONE ignore expression starts, is absorbed by its pre-parse.
@@ -189,6 +192,30 @@ Theorem C09_remove_interior_partial : forall (G : env), forallb fwd_class G = tr
   peg G (u ++ v) (S f) e loc0 = POk l ts.
 Proof. exact and_remove_interior. Qed.
 
+(* The prefix hypothesis discharged for a syntactic class of prefixes (`lf_seq true es1`, Proofs/Insens2.v): es1 is built
+   from non-empty Literals, Words (no as_keyword, no max), And, Group, Suppress, pass-through wrappers, and its LAST token
+   is a Literal - such a derivation inspects no character at or behind its end.  What remains assumed is a fact about the
+   ACCEPTED text only: the derivation of es1 ends at |u| (the definition of the token boundary). *)
+Theorem C09_insert_interior_literal_prefix_partial : forall (G : env), forallb fwd_class G = true ->
+  forall u w v f a i es1 e2 es2 loc0 ts1 l ts,
+  lf_seq true es1 = true ->
+  fwd_class e2 = true -> Forall fwdP es2 ->
+  callpre (attrs_of e2) && skipws (attrs_of e2) = true ->
+  (forall c, In c w -> mem_char c (white (attrs_of e2)) = true) ->
+  let e := Nary a i NAnd (es1 ++ e2 :: es2) in
+  peg G (u ++ v) (S f) e loc0 = POk l ts ->
+  peg_seq (peg G (u ++ v) f) es1 (eff (u ++ v) e loc0) [] = POk (length u) ts1 ->
+  peg G (u ++ w ++ v) (S f) e loc0 = POk (length w + l) ts.
+Proof. exact and_insert_interior_lf. Qed.
+
+(* the prefix-determinacy behind it: a successful reading of an element of the class is the same on every text that has
+   the same characters before its end (st = true) resp. up to and including its end (st = false: a Word looks at the
+   character that stops it) *)
+Theorem C09_literal_prefix_determined : forall (G : env) u t1 t2 f st e loc l ts, lf st e = true ->
+  peg G (u ++ t1) f e loc = POk l ts -> l + slack st <= length u ->
+  eff (u ++ t1) e loc < l /\ peg G (u ++ t2) f e loc = POk l ts.
+Proof. exact lf_ok. Qed.
+
 (* a JSON-like instance: obj = '{' + Word + ':' + val + '}', val = Word(digits) | Group('[' + val + ZeroOrMore(',' + val) + ']')
    (val a Forward), text '{k:[1,2]}', blank + newline inserted between ':' and the value.  The second reading is obtained
    by APPLYING C09_insert_interior_partial (Proofs/Insens2.v json_instance), its hypotheses hold of the instance. *)
@@ -197,6 +224,12 @@ Example C09_json_instance :
   peg xG (xu ++ xv) 12 xobj 0 = POk 9 xresult /\
   peg xG (xu ++ xw ++ xv) 12 xobj 0 = POk 11 xresult.
 Proof. exact (conj json_class json_instance). Qed.
+
+(* the same instance through C09_insert_interior_literal_prefix_partial: the prefix '{' Word ':' is of the class, nothing is
+   computed on the new text *)
+Example C09_json_instance_literal_prefix :
+  lf_seq true xpre = true /\ peg xG (xu ++ xw ++ xv) 12 xobj 0 = POk 11 xresult.
+Proof. exact json_instance_lf. Qed.
 
 (* Without the hypothesis on the prefix the interior statement is FALSE on the faithful model (and on the implementation):
    F-09b.  (Suppress('ab') ^ DelimitedList(Word('ab'))) + ')' : a blank inserted at the token boundary in front of ')' in the
